@@ -594,14 +594,22 @@ func (h *vHarness) runHandover(sc vScenario, sk *hoSink) {
 				defer gmu.Unlock()
 				return nStarted, nStopped
 			}
+			// the second SIGHUP comes right after the first, or (every second reload) while the first reload is known to be
+			// running: it is sent once that reload sits in the hand-over window
+			early := s.started.Load()%2 == 0
 			syscall.Kill(os.Getpid(), syscall.SIGHUP)
-			time.Sleep(time.Duration(s.started.Load()%3) * 500 * time.Microsecond)
-			syscall.Kill(os.Getpid(), syscall.SIGHUP)
+			if early {
+				time.Sleep(time.Duration(s.started.Load()%3) * 500 * time.Microsecond)
+				syscall.Kill(os.Getpid(), syscall.SIGHUP)
+			}
 			t0 := time.Now()
 			for a, _ := counts(); a < 1 && time.Since(t0) < 10*time.Second; a, _ = counts() {
 				time.Sleep(time.Millisecond)
 			}
-			time.Sleep(100 * time.Millisecond) // a second reload running at the same time arrives in the window too
+			if !early {
+				syscall.Kill(os.Getpid(), syscall.SIGHUP)
+			}
+			time.Sleep(250 * time.Millisecond) // a second reload running at the same time arrives in the window too
 			close(release)
 			var err error
 			stable := time.Now()
